@@ -61,7 +61,7 @@ def main(run):
     reqs = []
     meta = {}
     for si in range(n_schemas):
-        schema = gen_schema(rng, odd_type_names=(si % 3 == 0), deprecations=0.3, n_input=rng.randint(1, 4), narrowing=0.3 if si % 2 else 0.0, own_deprecation=0.3 if si % 4 == 1 else 0.0)
+        schema = gen_schema(rng, odd_type_names=(si % 3 == 0), deprecations=0.3, n_input=rng.randint(1, 4), narrowing=0.3 if si % 2 else 0.0, own_deprecation=0.3 if si % 4 == 1 else 0.0, underscore_types=(si % 5 == 2))
         if any(t.get("one_of") for t in schema.types.values()):
             run.count("schemas-with-oneof")
         if any(f.get("deprecated") for t in schema.types.values() for f in t.get("fields", []) if isinstance(f, dict)):
